@@ -69,7 +69,7 @@ def build(cvk, tvk, avk, ovk, dvk, s1, s2, n, items):
     from simpletal import simpleTALES
 
     vals = {"cv": value(cvk, s1, n), "tv": value(tvk, s2, n), "av": value(avk, s1, n), "ov": value(ovk, s2, n), "dv": value(dvk, s1, n)}
-    seq = [({"v": it} if it is not None else {}) for it in items]
+    seq = [("plain" if it == "PLAINITEM" else {"v": it} if it is not None else {}) for it in items]
     real = simpleTALES.Context(allowPythonPath=0)
     real.log = NullLog()
     ref = R.Ctx({})
